@@ -84,7 +84,8 @@ def oracle(ctx):
   modes, io = ctx.modes
   built = ctx.built
   ops = built.ops[0]
-  if not any(md.kind(m) == 'SRQ' for m in modes):
+  if not any(md.kind(m) == 'SRQ' for m in modes) and not any(
+      v not in (None, 'NQ') for v in io.values()):
     return fails
 
   def facts(tid=None):
